@@ -10,6 +10,9 @@ Generic theorems (any classification `cls`, any programs, any schedule of operat
   C04_history_irrelevant       hence any two histories followed by reset(seed) and the same later operations (even
                                interleaved with other instances) give the same trajectory
 Skeleton theorems (the four operations as the inventory describes them): see the second half of the file.
+Round 3: the F-10 repair (NMNE settings per game) is followed — C04_skeleton_isolated_partial now excludes exactly F-11, with the code's own
+`stepProg`; C04_gen_globals_safe is FULL; the seed argument is an `Option Int` (C04_reset_call_reseeds, C04_reset_any_seed_episode_fresh,
+C04_gen_seed_handling, C04_truthy_seed_counterexample, C04_unseeded_reset_fresh_modulo_rng).
 -/
 import PrimaiteModel.Model.Isolation
 import PrimaiteModel.Gen.SharedState
